@@ -271,6 +271,24 @@ def write_generated(pid: str, body: str) -> bool:
     return write_if_changed(LEAN / "EphVerif" / "Generated" / f"{pid}.lean", text)
 
 
+def restore_generated() -> list[str]:
+    """Restore lean/EphVerif/Generated/*.lean files that differ from the committed version
+    (used only for the translator-gap fallback). Returns the names restored."""
+    try:
+        r = subprocess.run(["git", "-C", str(VERIF), "status", "--porcelain", "--", "lean/EphVerif/Generated"],
+                           capture_output=True, text=True, timeout=60)
+        names = [l[3:].strip() for l in r.stdout.splitlines() if l[:2].strip() in ("M", "MM", "AM")]
+        out = []
+        for n in names:
+            g = subprocess.run(["git", "-C", str(VERIF), "show", f"HEAD:{n}"], capture_output=True, text=True, timeout=60)
+            if g.returncode == 0:
+                atomic_write(VERIF / n, g.stdout)
+                out.append(Path(n).name)
+        return out
+    except Exception:
+        return []
+
+
 def lean_consts(vals: dict[str, int], ty: str = "Nat") -> str:
     out = []
     for k, v in vals.items():
@@ -859,6 +877,20 @@ def proof_obligations(ctx: Ctx, spec: Spec) -> tuple[bool, list[str]]:
     ctx.coverage["obligations"] = len(thms)
     ctx.coverage["checker_cmd"] = f"cd lean && lake build {' '.join(spec.proof_modules)} && lake env lean <#print axioms audit>"
     ok, out = lake_build(spec.proof_modules)
+    if not ok and gaps:
+        # A translator gap must never be an alarm by itself (DESIGN section 1): the extractor could not
+        # re-read part of the source (renamed helper, reshaped loop), so what it emitted for those items
+        # is a guess. Fall back to the last successfully extracted definitions (the committed
+        # Generated/*.lean) and re-check the proofs against those; the differential run below then
+        # decides whether the code still behaves as the model says.
+        restored = restore_generated()
+        if restored:
+            ok2, out2 = lake_build(spec.proof_modules)
+            ctx.notes.append(f"translator gap: proofs re-checked against the last extracted definitions ({', '.join(restored)}) -> "
+                             + ("hold" if ok2 else "still broken"))
+            ctx.coverage["translator_gap_fallback"] = restored
+            if ok2:
+                ok, out = ok2, out2
     if not ok:
         bad = failing_theorems(out, spec.proof_modules)
         broken += bad or ["lake build failed: " + out[-400:]]
